@@ -39,7 +39,7 @@ func (s *scen) name() string {
 	return fmt.Sprintf("%s hops0=%d max-redirect=%d max-retry=%d max-hops=%d domains-crawl=%s", s.Family, s.SeedHops, s.MaxRedirect, s.MaxRetry, s.MaxHops, s.DC)
 }
 
-var numRe = regexp.MustCompile(`/(r|npl|nj)/(\d+)`)
+var numRe = regexp.MustCompile(`/(r|npl|nj|njr|njt)/(\d+)`)
 
 // dyn is the adversarial origin.
 func dyn(u string, attempt int) (world.Resp, bool) {
@@ -56,6 +56,11 @@ func dyn(u string, attempt int) (world.Resp, bool) {
 		case "npl": // playlists nested without end
 			body := fmt.Sprintf("#EXTM3U\n#EXT-X-VERSION:3\n#EXT-X-TARGETDURATION:10\n#EXTINF:10.0,\n/npl/%d.m3u8\n#EXT-X-ENDLIST\n", n+1)
 			return world.Resp{Status: 200, Header: map[string]string{"Content-Type": "application/vnd.apple.mpegurl"}, Body: body}, true
+		case "njr": // JSON documents nested without end, each one behind a redirect
+			return world.Resp{Status: 302, Header: map[string]string{"Location": fmt.Sprintf("/njt/%d.json", n)}}, true
+		case "njt":
+			body := fmt.Sprintf(`{"next": "%s/njr/%d.json", "n": %d}`, H, n+1, n)
+			return world.Resp{Status: 200, Header: map[string]string{"Content-Type": "application/json"}, Body: body}, true
 		case "nj": // JSON -> JSON -> ...
 			body := fmt.Sprintf(`{"next": "%s/nj/%d.json", "n": %d}`, H, n+1, n)
 			return world.Resp{Status: 200, Header: map[string]string{"Content-Type": "application/json"}, Body: body}, true
@@ -70,6 +75,8 @@ func dyn(u string, attempt int) (world.Resp, bool) {
 		return world.Resp{Status: 301, Header: map[string]string{"Location": "/self"}}, true
 	case "/pn":
 		return world.Resp{Status: 200, Header: html, Body: `<!DOCTYPE html><html><body><video src="/npl/0.m3u8"></video></body></html>`}, true
+	case "/pjr":
+		return world.Resp{Status: 200, Header: html, Body: `<!DOCTYPE html><html><body><img src="/njr/0.json"></body></html>`}, true
 	case "/pj":
 		return world.Resp{Status: 200, Header: html, Body: `<!DOCTYPE html><html><body><img src="/nj/0.json"></body></html>`}, true
 	case "/selfpage":
@@ -110,6 +117,18 @@ func scenario(s *scen) *vsched.Scenario {
 	sc.Idle = world.IsIdlePoint
 	sc.Horizon = 60 * time.Minute
 	sc.DelayBounding = true
+	// bounded work: none of the families needs more than a few dozen requests within the configured
+	// bounds; a run that is still fetching after 150 requests will never stop
+	sc.AtStep = func(x *vsched.Exec) error {
+		if len(w.Log) > 150 {
+			deepest := ""
+			for _, f := range w.Log[len(w.Log)-3:] {
+				deepest += " " + strings.TrimPrefix(f.URL, H)
+			}
+			return fmt.Errorf("unbounded-work: %d requests for one seed and still going (last:%s)", len(w.Log), deepest)
+		}
+		return nil
+	}
 	sc.AtEnd = func(x *vsched.Exec) error { return oracle(s, x, w) }
 	sc.Outcome = func(x *vsched.Exec) string {
 		var ps []string
@@ -174,6 +193,7 @@ func oracle(s *scen, x *vsched.Exec, w *world.World) error {
 	if s.DC == "off" {
 		for u := range count {
 			if m := numRe.FindStringSubmatch(u); m != nil && m[1] != "r" {
+				// /njr/N redirects to /njt/N: both are the resource N+1 levels below the page
 				n, _ := strconv.Atoi(m[2])
 				if n+1 > 3 {
 					return fmt.Errorf("too-deep: %s is %d levels below the page and was requested", u, n+1)
@@ -211,6 +231,10 @@ func oracle(s *scen, x *vsched.Exec, w *world.World) error {
 }
 
 func sig(v *vsched.Violation) string {
+	if v.Kind == "crash" && strings.HasPrefix(v.Message, "invariant: ") {
+		m := strings.TrimPrefix(v.Message, "invariant: ")
+		return m[:strings.IndexByte(m, ':')]
+	}
 	if v.Kind == "crash" {
 		return vsched.DefaultSignature(v)
 	}
@@ -223,7 +247,7 @@ func sig(v *vsched.Violation) string {
 func scenarios(tier string) []scen {
 	fam := []struct{ name, seed string }{
 		{"endless-redirect-chain", H + "/r/0"}, {"redirect-loop", H + "/loop/a"}, {"self-redirect", H + "/self"},
-		{"nested-playlists", H + "/pn"}, {"nested-json", H + "/pj"}, {"page-lists-itself", H + "/selfpage"},
+		{"nested-playlists", H + "/pn"}, {"nested-json", H + "/pj"}, {"nested-json-behind-redirects", H + "/pjr"}, {"page-lists-itself", H + "/selfpage"},
 		{"always-500", H + "/boom"}, {"429-then-200", H + "/limited"}, {"hub", H + "/hub"},
 	}
 	dcs := map[string][]string{"off": nil, "site": {"s.example"}, "other": {"elsewhere.example"}}
@@ -233,7 +257,7 @@ func scenarios(tier string) []scen {
 			for _, rt := range []int{0, 1, 2} {
 				for _, mh := range []int{0, 1, 2} {
 					for _, dc := range []string{"off", "site", "other"} {
-						nested := f.name == "nested-playlists" || f.name == "nested-json"
+						nested := strings.HasPrefix(f.name, "nested-")
 						if nested && dc != "off" {
 							continue // with --domains-crawl active (whatever it matches) the depth limit does not apply - the property says so - and these families never end
 						}
@@ -314,7 +338,7 @@ func main() {
 	hkit.Evidence(propID, a.Tier, "model_checking", map[string]any{
 		"states": total.States, "transitions": total.Transitions, "traces_validated_against_impl": total.Executions,
 		"samples": []any{total.Sample}, "exhaustive": total.Exhaustive, "scenarios": len(ss), "distinct_outcomes": len(outcomes),
-		"explanation": "9 adversarial server families x max-redirect {0..3} x max-retry {0,1,2} x max-hops {0,1,2} x domains-crawl {off, matching the site, matching another host} (x seed hops {0,1,2} where outlinks matter) through the real pipeline on the virtual clock; every select outcome of the canonical schedule (thorough: plus every single deviation); bounds read from the transport log and the produce channel",
+		"explanation": "10 adversarial server families x max-redirect {0..3} x max-retry {0,1,2} x max-hops {0,1,2} x domains-crawl {off, matching the site, matching another host} (x seed hops {0,1,2} where outlinks matter) through the real pipeline on the virtual clock; every select outcome of the canonical schedule (thorough: plus every single deviation); bounds read from the transport log and the produce channel",
 	}, []string{
 		"nested playlist/JSON families are only run with --domains-crawl off: the property exempts the depth bound when it is active, and with it active these families never end (observed: >150 000 steps)",
 		"every URL of these families is visited at most once per seed, so per-URL request counts are per-visit counts",
